@@ -58,8 +58,8 @@ def make_protocluster(L, circular, spec):
     if circular:
         total = clen + (nl + nr) * SLOT
         if total >= L:
-            if nl < 90:
-                return None
+            if nl < 90 or len(core.parts) > 1:
+                return None     # (a core crossing the origin keeps an origin-crossing extent in antiSMASH, never [0:L])
             # neighbourhoods larger than the record (nl = nr >= 90): the extent is clipped to the whole record, as on a line
             loc = F(0, L, strand)
         else:
